@@ -195,8 +195,17 @@ class SiteTracer(Tracer):
                 self.fn_stack.pop()
         if path in IDENTITY_CALLS and len(args) == 1:
             return args[0]
+        if path in ("std::cmp::min", "std::cmp::max", "std::cmp::Ord::min", "std::cmp::Ord::max") and len(args) == 2:
+            from .symx import mk_minmax
+            return mk_minmax(path.rsplit("::", 1)[-1], args[0], args[1])
+        ov = self.option_call(path, args)
+        if ov is not None:
+            return ov
         mm = STD_NUM_RX.match(path or "")
         if mm:
+            if mm.group(2) in ("min", "max") and len(args) == 2:
+                from .symx import mk_minmax
+                return mk_minmax(mm.group(2), args[0], args[1])
             return app(mm.group(2), *args)
         return self.call_opaque(path, args)
 
